@@ -63,6 +63,7 @@ def check(ctx: Ctx) -> None:
     ctx.rule("R3.3", "frame-local stack: a loop that drains the parser stack is allowed only in Parser.process; other popping loops stop at a marker the same invocation pushed or at a depth saved on entry")
     ctx.rule("R3.4", "limit transfer in Parser.element (read from source) succeeds in every world with l<=v<=u, l<u (own serialisation is accepted)")
     ctx.rule("R3.5", "label alphabet: first characters accepted by set_label ⊆ first characters for which the tokenizer produces a Label; brace balance")
+    ctx.rule("R3.8", "every part of an element's state the emitter writes (value, limits, fixed flag, label, sub-circuits) flows unfiltered from Parser.parameters into the constructed element; 'short'/'open' are emitted exactly for empty/absent sub-circuits")
     ctx.rule("R3.7", "orientation typestate of lists built from the LIFO parser stack: the list handed to Series/Parallel is forward")
 
     # ---------------- R3.1 ------------------------------------------------------------
@@ -330,6 +331,9 @@ def check(ctx: Ctx) -> None:
                 ctx.violation("R3.4", "Parser.element:widening-range", PARSER, s.node,
                               "the widening step must range over exactly the lower limits that are given (not NaN)")
 
+    # ---------------- R3.8 state carried ------------------------------------------------------------
+    _state_carried(ctx, model)
+
     # ---------------- R3.5 ------------------------------------------------------------------------
     _labels(ctx, model)
     ctx.sample({"special_characters": sorted(special), "parser_keywords": sorted(parser_words)})
@@ -456,3 +460,119 @@ def _labels(ctx: Ctx, model) -> None:
                       "ends a label at the first unbalanced '}' — e.g. label 'a}b' cannot be parsed back")
     else:
         ctx.ok()
+
+
+def _state_carried(ctx: Ctx, model) -> None:
+    el = model.fi(PARSER, "Parser.element")
+    unp = [n for n in walk_ordered(el.node) if isinstance(n, ast.Assign) and isinstance(n.targets[0], ast.Tuple)
+           and isinstance(n.value, ast.Call) and dotted(n.value.func) == "self.parameters"]
+    if len(unp) != 1:
+        raise AnalysisError("Parser.element: unpacking of self.parameters(Class) not found")
+    names = [norm(e) for e in unp[0].targets[0].elts]
+    pf = model.fi(PARSER, "Parser.parameters")
+    from ..prov import return_tuples
+    rts = return_tuples(pf.node)
+    if not rts or any([norm(x) for x in rt] != [norm(x) for x in rts[0]] for rt in rts):
+        raise AnalysisError("Parser.parameters: return tuples differ between paths")
+    rnames = [norm(x) for x in rts[0]]
+    ctx.instance("R3.8", f"Parser.parameters returns {rnames}; Parser.element unpacks {names}")
+    if rnames == names:
+        ctx.ok()
+    else:
+        ctx.violation("R3.8", "Parser.element:unpack-order", PARSER, unp[0], f"Parser.element unpacks {names} but Parser.parameters returns {rnames}: parts of the element state are swapped")
+    uses = {
+        "label": ("set_label", "plain"), "fixed_parameters": ("set_fixed", "star"), "lower_limits": ("set_lower_limits", "nan-filter"),
+        "upper_limits": ("set_upper_limits", "nan-filter"), "parameters": ("<ctor>", "star"), "subcircuits": ("<ctor>", "star"),
+    }
+    for nm, (meth, form) in uses.items():
+        if nm not in names:
+            raise AnalysisError(f"Parser.element: {nm} is not unpacked from Parser.parameters")
+        ctx.instance("R3.8", f"Parser.element: {nm} → {meth}")
+        calls = []
+        for c in calls_in(el.node):
+            if meth == "<ctor>" and isinstance(c.func, ast.Name) and c.func.id == "Class":
+                calls.append(c)
+            elif isinstance(c.func, ast.Attribute) and c.func.attr == meth:
+                calls.append(c)
+        ok = False
+        why = "not passed on"
+        for c in calls:
+            for k in c.keywords:
+                if k.arg is None and isinstance(k.value, ast.Name) and k.value.id == nm and form in ("star", "nan-filter"):
+                    ok = True
+                if k.arg is None and isinstance(k.value, ast.DictComp) and nm in norm(k.value):
+                    dc = k.value
+                    g = dc.generators[0]
+                    kv = [e.id for e in g.target.elts] if isinstance(g.target, ast.Tuple) else []
+                    if norm(g.iter) == f"{nm}.items()" and len(kv) == 2 and norm(dc.key) == kv[0]:
+                        filt = [norm(i) for i in g.ifs]
+                        val = norm(dc.value)
+                        if form == "nan-filter" and filt in ([f"not isnan({kv[1]})"],) and (val == kv[1] or val in ("-inf", "inf")):
+                            ok = ok or val == kv[1]
+                        elif filt:
+                            why = f"filtered by {filt}"
+                        elif val == kv[1]:
+                            ok = True
+            for a in c.args:
+                if form == "plain" and isinstance(a, ast.Name) and a.id == nm:
+                    ok = True
+        if ok:
+            ctx.ok()
+        else:
+            ctx.violation("R3.8", f"Parser.element:{nm}", PARSER, el.node,
+                          f"Parser.element does not hand the parsed `{nm}` to {meth} completely ({why}): that part of the state is lost or altered when a code is parsed back")
+    # parameters(): the four per-parameter stores are unconditional in the numeric branch
+    for d, v in (("parameters", "value"), ("lower_limits", "lower"), ("upper_limits", "upper"), ("fixed_parameters", "fixed")):
+        st = [n for n in walk_ordered(pf.node) if isinstance(n, ast.Assign) and norm(n.targets[0]) == f"{d}[key]"]
+        ctx.instance("R3.8", f"Parser.parameters: {d}[key] = {v}")
+        good = len(st) == 1 and norm(st[0].value) == v
+        if good:
+            p_ = parent(st[0])
+            # directly in the else-arm that handles numeric parameters (no extra condition)
+            good = isinstance(p_, ast.If) and st[0] in p_.orelse
+        if good:
+            ctx.ok()
+        else:
+            ctx.violation("R3.8", f"Parser.parameters:{d}", PARSER, pf.node, f"Parser.parameters must record {d}[key] = {v} for every parsed numeric parameter")
+    pp = model.fi(PARSER, "Parser.param")
+    ctx.instance("R3.8", "Parser.param: fixed flag = token is a FixedNumber")
+    fx = [n for n in walk_ordered(pp.node) if isinstance(n, (ast.Assign, ast.AnnAssign)) and norm(n.targets[0] if isinstance(n, ast.Assign) else n.target) == "fixed"]
+    if len(fx) == 1 and norm(fx[0].value) in ("isinstance(value, FixedNumber)", "type(value) is FixedNumber"):
+        ctx.ok()
+    else:
+        ctx.violation("R3.8", "Parser.param:fixed", PARSER, pp.node, "the fixed flag must be exactly 'the number token carries the F marker'")
+    # emitter side: 'open' for None, 'short' for an empty connection, text otherwise
+    ct = model.fi(BASE, "Container.to_string")
+    ctx.instance("R3.8", "Container.to_string: open/short conditions")
+    chain = [n for n in walk_ordered(ct.node) if isinstance(n, ast.If) and norm(n.test) == "con is None"]
+    if len(chain) != 1 or len(chain[0].orelse) != 1 or not isinstance(chain[0].orelse[0], ast.If):
+        raise AnalysisError("Container.to_string: open/short/else chain not found")
+    first, second = chain[0], chain[0].orelse[0]
+    t2 = norm(second.test).replace(" ", "")
+    empty_ok = t2 in ("len(con.get_elements())==0", "len(con.get_elements(recursive=True))==0", "len(con)==0", "con.count()==0",
+                      "notcon.get_elements()", "len(con._elements)==0")
+    shapes_ok = "open" in norm(first.body[0]) and "short" in norm(second.body[0]) and "con.to_string(decimals=decimals)" in norm(second.orelse[0])
+    if t2 in ("len(con.get_elements(recursive=False))==0", "notcon.get_elements(recursive=False)"):
+        ctx.violation("R3.8", "Container.to_string:short-condition", BASE, second,
+                      "a sub-circuit is written as 'short' when it has no DIRECT element children: a sub-circuit consisting only of nested connections loses all its elements on round trip")
+    elif not empty_ok:
+        raise AnalysisError(f"Container.to_string: the condition for writing 'short' ({norm(second.test)}) is not a recognised emptiness test")
+    elif not shapes_ok:
+        ctx.violation("R3.8", "Container.to_string:keywords", BASE, first, "None must be written as 'open', an empty connection as 'short', anything else as its own code")
+    else:
+        ctx.ok()
+    ps = model.fi(PARSER, "Parser.subcircuit")
+    ctx.instance("R3.8", "Parser.subcircuit: short → Series([]), open → None")
+    t = norm(ps.node)
+    kw_ok = False
+    for n in walk_ordered(ps.node):
+        if isinstance(n, ast.If) and "'short'" in norm(n.test):
+            r1 = [x for x in n.body if isinstance(x, ast.Return)]
+            nxt = n.orelse[0] if n.orelse and isinstance(n.orelse[0], ast.If) else None
+            r2 = [x for x in nxt.body if isinstance(x, ast.Return)] if nxt is not None and "'open'" in norm(nxt.test) else []
+            if r1 and norm(r1[0].value) == "Series([])" and r2 and norm(r2[0].value) == "None":
+                kw_ok = True
+    if kw_ok:
+        ctx.ok()
+    else:
+        ctx.violation("R3.8", "Parser.subcircuit:keywords", PARSER, ps.node, "'short'/'zero' must parse to an empty Series and 'open'/'inf' to None")
